@@ -307,7 +307,24 @@ impl VoiceOracle {
                     if replaced {
                         res.bump("sites_replaced_fresh_obligated");
                     }
-                    let fresh = inserted || replaced;
+                    // several edits before one save: a new site is obliged to start from zero if
+                    // no maximum matching pairs it and nothing of any old site that does not
+                    // survive (deleted or replaced in the same save) could be carried into it
+                    let multi_fresh = match &new.edit {
+                        Edit::Multi(_) => {
+                            oracle::forced_fresh(old_shapes, new_shapes, j)
+                                && self.sites.iter().enumerate().all(|(i, os)| {
+                                    new.sites.iter().any(|v| v.id == os.voice.id)
+                                        || oracle::leaf_tokens(&old_shapes[i])
+                                            .is_disjoint(&oracle::leaf_tokens(&new_shapes[j]))
+                                })
+                        }
+                        _ => false,
+                    };
+                    if multi_fresh {
+                        res.bump("sites_multi_fresh_obligated");
+                    }
+                    let fresh = inserted || replaced || multi_fresh;
                     if fresh {
                         res.bump("sites_fresh_obligated");
                     } else {
@@ -364,6 +381,7 @@ fn edit_name(e: &Edit) -> &'static str {
         Edit::Noop => "noop",
         Edit::Fault(_) => "fault",
         Edit::Inner { .. } => "inner",
+        Edit::Multi(_) => "multi",
     }
 }
 
@@ -806,7 +824,7 @@ pub fn gen_c07(seed: u64) -> Scenario {
             n_faults += 1;
             versions.push(Version::Gen(pg.faulty(&mut r_fault, &good)));
         } else {
-            let next = pg.edit(&mut r_prog, &good);
+            let next = if r_prog.chance(1, 4) { pg.multi_edit(&mut r_prog, &good) } else { pg.edit(&mut r_prog, &good) };
             good = next.clone();
             versions.push(Version::Gen(next));
         }
@@ -1331,6 +1349,22 @@ pub fn sweep_scenarios(prop: &str) -> Vec<Scenario> {
                         p.edit = Edit::Replace { pos, old_id, new_id: next_id };
                         edits.push(p);
                     }
+                }
+                // two edits saved together: drop the first voice and append another one, so that
+                // the survivor shifts while the number of voices stays the same
+                for x in reps.iter().take(4) {
+                    let mut p = v0.clone();
+                    let gone = p.sites[0].id;
+                    p.sites.remove(0);
+                    for c in p.chans.iter_mut() {
+                        c.retain(|y| *y != gone);
+                    }
+                    next_id += 1;
+                    let nv = sweep_voice(*x, next_id, 4);
+                    p.chans[2].push(nv.id);
+                    p.sites.push(nv);
+                    p.edit = Edit::Multi(vec![Edit::Delete { pos: 0, id: gone }, Edit::Insert { pos: 1, id: next_id }]);
+                    edits.push(p);
                 }
                 for (k, e) in edits.into_iter().enumerate() {
                     let backend = backends[k % backends.len()];
